@@ -28,6 +28,8 @@ func c10(c *Ctx) {
 		return
 	}
 	ruleShadow(c, "C10.R12", "the whole module")
+	c10R13(c)
+	c10R14(c)
 	c10R1(c)
 	c10R2(c)
 	c10R3(c)
@@ -815,4 +817,142 @@ func podGetAndPredicate(p *Prog, fn *FuncInfo) (errName, pred string) {
 		return "", ""
 	}
 	return errName, pred
+}
+
+// R13: the daemon takes a record only when the wait for it succeeded. In Remote.Allocate the error
+// delivered with the allocation is the error of the wait on the record (bound, same UID, right trunk):
+// the variable that carries it into AllocResp.Err is defined by that wait and, at most, re-wrapped into
+// another non-nil error — never replaced by a value that can be nil while the wait failed.
+func c10R13(c *Ctx) {
+	p := c.P
+	c.Rule("C10.R13", "Remote.Allocate: AllocResp.Err is the error of the wait for the bound record; the variable is assigned by the wait and otherwise only by non-nil producers (a timed-out wait never turns into success)")
+	fn := p.Func(eniPkg, "Remote.Allocate")
+	if fn == nil {
+		c.Unres("C10.R13", "Remote.Allocate", "not found")
+		return
+	}
+	info := fn.Info()
+	n := 0
+	ast.Inspect(fn.Decl.Body, func(k ast.Node) bool {
+		cl, ok := k.(*ast.CompositeLit)
+		if !ok || !typeIs(info.TypeOf(cl), modPath+"/"+eniPkg, "AllocResp") {
+			return true
+		}
+		for _, el := range cl.Elts {
+			kv, ok := el.(*ast.KeyValueExpr)
+			if !ok || exprString(kv.Key) != "Err" {
+				continue
+			}
+			n++
+			v := identObj(info, kv.Value)
+			if v == nil {
+				c.Check(nonNilProducer(info, kv.Value), "C10.R13", "Remote.Allocate: AllocResp.Err", p.Pos(kv), fn.Key(), "the wait's error variable", exprString(kv.Value))
+				continue
+			}
+			waits, others := 0, []string{}
+			ast.Inspect(fn.Decl.Body, func(j ast.Node) bool {
+				as, ok := j.(*ast.AssignStmt)
+				if !ok {
+					return true
+				}
+				for i, l := range as.Lhs {
+					if identObj(info, l) != v {
+						continue
+					}
+					var rhs ast.Expr
+					if len(as.Rhs) == len(as.Lhs) {
+						rhs = as.Rhs[i]
+					} else if len(as.Rhs) == 1 {
+						rhs = as.Rhs[0]
+					}
+					if call, ok := ast.Unparen(rhs).(*ast.CallExpr); ok {
+						if f := Callee(info, call); f != nil && f.Pkg() != nil && strings.HasSuffix(f.Pkg().Path(), "util/wait") {
+							waits++
+							continue
+						}
+					}
+					if rhs != nil && nonNilProducer(info, rhs) {
+						continue
+					}
+					others = append(others, p.Pos(as)+": "+exprString2(as))
+				}
+				return true
+			})
+			c.Check(waits >= 1 && len(others) == 0, "C10.R13", "Remote.Allocate: the delivered error is the wait's", p.Pos(kv), fn.Key(), v.Name()+" = wait.…(…) and non-nil re-wraps only", fmt.Sprintf("wait definitions=%d; other definitions: %s", waits, strings.Join(others, "; ")))
+		}
+		return true
+	})
+	c.Floor("C10.R13", "AllocResp literals with an Err in Remote.Allocate", 1, n)
+}
+
+// R14: once the record exists the roll-back is off. podCreate's deferred roll-back deletes the created
+// interfaces when the function-level error is set; the record that names them is created last. After
+// that Create no statement assigns the error variable again — a later failure (waiting for the cache,
+// …) must not delete interfaces a persisted record refers to.
+func c10R14(c *Ctx) {
+	p := c.P
+	c.Rule("C10.R14", "podCreate: after the PodENI record was created the error variable the deferred roll-back tests is never assigned again (never-before: Create(record) → assignment of that variable)")
+	fn := p.Func(podCtlPkg, "ReconcilePod.podCreate")
+	if fn == nil {
+		c.Unres("C10.R14", "ReconcilePod.podCreate", "not found")
+		return
+	}
+	info := fn.Info()
+	var create *ast.AssignStmt
+	var errObj types.Object
+	ast.Inspect(fn.Decl.Body, func(k ast.Node) bool {
+		as, ok := k.(*ast.AssignStmt)
+		if !ok || len(as.Rhs) != 1 || len(as.Lhs) != 1 {
+			return true
+		}
+		call, ok := ast.Unparen(as.Rhs[0]).(*ast.CallExpr)
+		if !ok || len(call.Args) < 2 {
+			return true
+		}
+		if f := Callee(info, call); f == nil || f.Name() != "Create" {
+			return true
+		}
+		if t := info.TypeOf(call.Args[1]); t != nil && strings.HasSuffix(t.String(), ".PodENI") {
+			create, errObj = as, identObj(info, as.Lhs[0])
+		}
+		return true
+	})
+	if create == nil || errObj == nil {
+		c.Undec("C10.R14", "podCreate: creation of the record", p.Pos(fn.Decl), fn.Key(), "err = client.Create(ctx, podENI)", "not recognised")
+		return
+	}
+	// the roll-back reads that variable
+	reads := false
+	ast.Inspect(fn.Decl.Body, func(k ast.Node) bool {
+		if d, ok := k.(*ast.DeferStmt); ok {
+			ast.Inspect(d, func(j ast.Node) bool {
+				if id, ok := j.(*ast.Ident); ok && info.ObjectOf(id) == errObj {
+					reads = true
+				}
+				return true
+			})
+		}
+		return true
+	})
+	if !reads {
+		c.OK("C10.R14", "podCreate: no deferred roll-back reads the variable", p.Pos(create), fn.Key(), "nothing to protect")
+		return
+	}
+	assigns := func(k ast.Node) bool {
+		if k == ast.Node(create) {
+			return false
+		}
+		switch t := k.(type) {
+		case *ast.AssignStmt:
+			for _, l := range t.Lhs {
+				if identObj(info, l) == errObj {
+					return true
+				}
+			}
+		}
+		return false
+	}
+	q := NewPathQuery(p, fn, nil)
+	w := q.Escapes(isExactly(create), assigns, nil, nil)
+	c.Check(w == nil, "C10.R14", "podCreate: the roll-back cannot fire after the record exists", p.Pos(create), fn.Key(), "never-before: Create(record) → "+errObj.Name()+" = …", "path: "+p.describePath(w))
 }
